@@ -107,6 +107,51 @@ CHECKS = {
         note='grammar = RFC 3501 section 9 + advertised extensions as '
              'written in vf/grammar.py; the same parser also reads all server '
              'output in every other check'),
+    'C03': dict(
+        category='exploration', design='4/C03',
+        technique='runtime monitor: byte-equality oracle (pure function of '
+                  'the appended input) over generated message shapes and '
+                  'partial ranges',
+        text='Generated byte strings (CRLF/LF/CR/mixed line endings, with or '
+             'without header/body separator and final newline, whitespace-'
+             'only last line, NUL, 8-bit, nested MIME, up to 64 KiB) are '
+             'appended via {n}, {n+} and ~{n+} on dict and maildir; BODY[], '
+             'RFC822, RFC822.SIZE, HEADER+TEXT, 4 partial ranges around the '
+             'ends, the COPY and MOVE copies and the BODYSTRUCTURE octet '
+             'count of every leaf part are compared with the input.',
+        note='messages <= 64 KiB; redis not runnable; line counts not '
+             'checked; the BODYSTRUCTURE octet counts are a known finding '
+             'pinned by the repository tests'),
+    'C13': dict(
+        category='exploration', design='4/C13',
+        technique='runtime monitor: independent RFC 3501 SEARCH evaluator '
+                  "over the session's own dumped view + metamorphic "
+                  'relations on the server alone',
+        text='Mailboxes of 4-12 generated messages (flags, sizes, internal '
+             'and sent dates around day boundaries in several zones, unique '
+             'header/body tokens); search programs of depth <= 4 over all 39 '
+             'keys; SEARCH result mapped through the view must equal the '
+             'evaluator and UID SEARCH; NOT NOT, De Morgan, commutativity, '
+             'parentheses and ALL relations; views with hidden expunged '
+             'messages and renumbered views; mismatches are shrunk to the '
+             'smallest wrong key.',
+        note='ground truth is the server\'s own FETCH dump of the same view; '
+             'RFC latitude (hidden expunged messages, keywords, empty '
+             'strings) is an allowed set and counted'),
+    'C19': dict(
+        category='exploration', design='4/C19',
+        technique='runtime monitor: name->bytes reference model per user + '
+                  'independent RFC 5804 response reader + glass-box store '
+                  'snapshots for the pre-authentication gate',
+        text='Programs of 3-20 ManageSieve commands over 2 connections and '
+             '2-3 users with hostile names and valid/invalid/unclear scripts; '
+             'before authentication every script command must be refused and '
+             'every store unchanged; afterwards every condition and every '
+             'GETSCRIPT/LISTSCRIPTS payload must equal the model; a final '
+             'audit on fresh connections proves users never see each '
+             "other's scripts.",
+        note='dict backend filter store; latitudes of RFC 5804 are allowed '
+             'sets and counted'),
 }
 
 NOT_YET = 'check not built yet in this round (see DESIGN.md section 4)'
